@@ -71,10 +71,17 @@ def run(F):
     r = RuleResult("R60", "EVEN-GUARD: branches of a robust loss depend on the residual only through an even function of it")
     n = 0
     for b in F.bodies:
-        if not b.is_closure() or not (b.d.get("parent") or "").endswith("estimator::loss::Loss::apply"):
+        # the element closures of Loss::apply, or a per-residual method of Loss (`fn apply_scalar(&self, ri: f64) -> f64`)
+        in_loss = "estimator::loss::Loss::" in b.path and "::tests::" not in b.path
+        if not in_loss:
             continue
+        if b.is_closure():
+            params = set(range(2, b["arg_count"] + 1))
+        else:
+            params = {l for l in range(1, b["arg_count"] + 1) if (b.lty(l) or {}).get("s") == "f64" and (b.lname(l) or "").startswith(("r", "x", "z"))}
+            if (b.lty(0) or {}).get("s") != "f64" or not params:
+                continue
         defs = Defs(b)
-        params = set(range(2, b["arg_count"] + 1))
 
         def direct(op):
             """operand is (a copy of) the element parameter"""
